@@ -71,9 +71,10 @@ Proof.
   unfold timed_out. rewrite (no_timeout c now (last s) Ht Hl). cbn [app]. apply IH; assumption.
 Qed.
 
-Definition only_transfer (o : obs) : bool :=
+Definition only_transfer (k : Z) (o : obs) : bool :=
   match o with
-  | CSegData _ _ _ | OSend _ _ _ _ _ (TSegment _ _) | OSend _ _ _ _ _ (TLastSegment _ _) => true
+  | CSegData _ _ _ | OSend _ _ _ _ _ (TLastSegment _ _) => true
+  | OSend _ _ _ _ _ (TSegment n _) => n =? k
   | _ => false
   end.
 
@@ -85,7 +86,7 @@ Lemma transmit_runs c e b k sec : good_cfg c -> section e k sec -> sel b = true 
     run c e (repeat (ERun 0) n) (mkS b Transmit k o (len sec) sc fc now) now [] =
       ROk (mkS b WaitSectionAck k (len sec) (len sec) ((sc + sum (skipn (Z.to_nat o) sec)) mod 256) fc now) now obs /\
     segments k obs = skipn (Z.to_nat o) sec /\ forallb (seg_len_ok (max_seg c)) obs = true /\
-    last_segments obs = [(k, (sc + sum (skipn (Z.to_nat o) sec)) mod 256)] /\ forallb only_transfer obs = true.
+    last_segments obs = [(k, (sc + sum (skipn (Z.to_nat o) sec)) mod 256)] /\ forallb (only_transfer k) obs = true.
 Proof.
   intros (Hm & Ht & Hf) Hsec Hsel Hselc. induction n as [|n IH]; intros o sc fc now Ho Hsc Hn; [lia|].
   cbn [repeat run]. unfold run_task.
@@ -119,7 +120,7 @@ Proof.
     + unfold segments. cbn [map concat seg_of]. rewrite Z.eqb_refl. cbn [app]. fold (segments k obs). rewrite S1. symmetry. exact Hsplit.
     + cbn [forallb seg_len_ok andb]. rewrite S2. rewrite Hdl. replace (Z.of_nat (Z.to_nat m) <=? max_seg c) with true by (symmetry; apply Z.leb_le; lia). reflexivity.
     + unfold last_segments. cbn [map concat app]. exact S3.
-    + cbn [forallb only_transfer andb]. exact S4.
+    + cbn [forallb only_transfer andb]. rewrite Z.eqb_refl. exact S4.
   - (* nothing left: the last-segment message *)
     apply Z.ltb_ge in Hcur. assert (o = len sec) by lia. subst o.
     rewrite Hf. unfold timed_out. cbn [set_st set_last last st]. rewrite (no_timeout c now now Ht eq_refl).
@@ -237,7 +238,7 @@ Proof.
   rewrite Hs. cbn [fstate_eqb negb andb].
   unfold h_call. rewrite Hcot. cbn [Z.eqb Pos.eqb]. cbn [length Z.of_nat Pos.of_succ_nat Pos.succ] in Hdec. rewrite Hdec.
   cbn [mkS fld nth Z.eqb Pos.eqb le16]. rewrite Hs. cbn [fstate_eqb]. rewrite Hca.
-  unfold nof_ok in Hnof. rewrite Hnof.
+  change (le16 [n0; n1; nx; 1] 0) with (n0 + 256 * n1). unfold nof_ok in Hnof. rewrite Hnof.
   unfold get_file. rewrite E1, !Z.eqb_refl. cbn [negb Z.eqb].
   destruct s. cbn in Hs. subst. reflexivity.
 Qed.
@@ -253,4 +254,333 @@ Proof.
   unfold h_call. rewrite Hcot. cbn [Z.eqb Pos.eqb]. cbn [length Z.of_nat Pos.of_succ_nat Pos.succ] in Hdec. rewrite Hdec.
   cbn [mkS fld nth Z.eqb Pos.eqb st fstate_eqb s_ioa s_ca b selected]. rewrite Hca, !Z.eqb_refl. cbn [negb orb].
   rewrite Hf. pose proof (section_size_in e 1 fst_sec Hsec) as Hs. cbn in Hs. rewrite Hs. reflexivity.
+Qed.
+
+(* ------------------------------------------------------------------ one section, with any number of repetitions *)
+Lemma segments_app k a b : segments k (a ++ b) = segments k a ++ segments k b.
+Proof. unfold segments. rewrite map_app, concat_app. reflexivity. Qed.
+Lemma last_segments_app a b : last_segments (a ++ b) = last_segments a ++ last_segments b.
+Proof. unfold last_segments. rewrite map_app, concat_app. reflexivity. Qed.
+Lemma last_sections_app a b : last_sections (a ++ b) = last_sections a ++ last_sections b.
+Proof. unfold last_sections. rewrite map_app, concat_app. reflexivity. Qed.
+Lemma completes_app a b : completes (a ++ b) = completes a ++ completes b.
+Proof. unfold completes. rewrite map_app, concat_app. reflexivity. Qed.
+
+(* summary of what was sent for section k: r complete copies of the section, nothing of other sections, every
+   segment within the size limit, r last-segment messages each carrying the section's checksum *)
+Definition sec_obs (c : fcfg) (k : Z) (sec : list Z) (r : nat) (os : list obs) : Prop :=
+  segments k os = concat (repeat sec r) /\ (forall k', k' <> k -> segments k' os = []) /\
+  forallb (seg_len_ok (max_seg c)) os = true /\ last_segments os = repeat (k, chk sec) r /\
+  completes os = [] /\ last_sections os = [].
+
+Lemma sec_obs_app c k sec r1 r2 o1 o2 : sec_obs c k sec r1 o1 -> sec_obs c k sec r2 o2 -> sec_obs c k sec (r1 + r2) (o1 ++ o2).
+Proof.
+  intros (A1 & A2 & A3 & A4 & A5 & A6) (B1 & B2 & B3 & B4 & B5 & B6). unfold sec_obs.
+  rewrite segments_app, last_segments_app, completes_app, last_sections_app, forallb_app, A1, B1, A3, B3, A4, B4, A5, B5, A6, B6.
+  rewrite !repeat_app, concat_app. repeat split; try reflexivity.
+  intros k' Hk. rewrite segments_app, (A2 k' Hk), (B2 k' Hk). reflexivity.
+Qed.
+
+Lemma only_transfer_quiet k os : forallb (only_transfer k) os = true ->
+  (forall k', k' <> k -> segments k' os = []) /\ completes os = [] /\ last_sections os = [].
+Proof.
+  induction os as [|o os IH]; intros H; [repeat split; reflexivity|].
+  cbn [forallb] in H. apply andb_prop in H as [Ho H]. destruct (IH H) as (I1 & I2 & I3).
+  split; [|split].
+  - intros k' Hk. unfold segments. cbn [map concat]. fold (segments k' os). rewrite (I1 k' Hk), app_nil_r.
+    destruct o as [? ? ? ? ? t| | | | | | | | |]; try reflexivity. destruct t; try reflexivity.
+    cbn in Ho. apply Z.eqb_eq in Ho. subst. cbn. replace (k =? k') with false by (symmetry; apply Z.eqb_neq; congruence). reflexivity.
+  - unfold completes. cbn [map concat]. fold (completes os). rewrite I2.
+    destruct o as [? ? ? ? ? t| | | | | | | | |]; try reflexivity; try discriminate.
+  - unfold last_sections. cbn [map concat]. fold (last_sections os). rewrite I3.
+    destruct o as [? ? ? ? ? t| | | | | | | | |]; try reflexivity. destruct t; try reflexivity; discriminate.
+Qed.
+
+Definition runs (sec : list Z) : list event := repeat (ERun 0) (S (length sec)).
+
+(* one transmission of the whole section from the Transmit state *)
+Lemma one_round c e b k sec fc now : good_cfg c -> bound b e -> section e k sec ->
+  exists os, run c e (runs sec) (mkS b Transmit k 0 (len sec) 0 fc now) now [] =
+             ROk (mkS b WaitSectionAck k (len sec) (len sec) (chk sec) fc now) now os /\ sec_obs c k sec 1 os.
+Proof.
+  intros Hc (B1 & B2 & B3 & B4) Hsec.
+  destruct (transmit_runs c e b k sec Hc Hsec B3 B4 (S (length sec)) 0 0 fc now) as (os & R & S1 & S2 & S3 & S4).
+  { unfold len. lia. } { lia. } { unfold len. lia. }
+  cbn [Z.to_nat skipn Z.add] in *. fold (chk sec) in *.
+  exists os. split; [exact R|]. destruct (only_transfer_quiet k os S4) as (Q1 & Q2 & Q3).
+  unfold sec_obs. cbn [repeat concat]. rewrite app_nil_r. repeat split; assumption.
+Qed.
+
+Definition round_events (sec : list Z) (na : asdu) : list event := ERx 0 na :: runs sec.
+
+Lemma repeated_rounds c e b k sec fc now : good_cfg c -> bound b e -> section e k sec ->
+  forall nacks, Forall (fun a => is_ack c e a 4) nacks ->
+  exists os, run c e (concat (map (round_events sec) nacks)) (mkS b WaitSectionAck k (len sec) (len sec) (chk sec) fc now) now [] =
+             ROk (mkS b WaitSectionAck k (len sec) (len sec) (chk sec) fc now) now os /\ sec_obs c k sec (length nacks) os.
+Proof.
+  intros Hc Hb Hsec. induction nacks as [|na nacks IH]; intros HF.
+  - exists []. split; [reflexivity|]. unfold sec_obs. cbn. repeat split; reflexivity.
+  - inversion HF as [|? ? Hna HF']; subst. destruct (IH HF') as (os2 & R2 & O2).
+    destruct (one_round c e b k sec fc now Hc Hb Hsec) as (os1 & R1 & O1).
+    cbn [map concat]. unfold round_events at 1. cbn [app run].
+    rewrite (step_nack_section c e b k (len sec) (chk sec) fc now na Hc Hb Hna). cbn [app].
+    rewrite run_app, run_acc, R1, run_acc, R2.
+    eexists. split; [reflexivity|].
+    cbn [length]. change (S (length nacks)) with (0 + (1 + length nacks))%nat.
+    apply (sec_obs_app c k sec 0 (1 + length nacks) [_] (os1 ++ os2)).
+    + unfold sec_obs. cbn. repeat split; reflexivity.
+    + apply sec_obs_app; assumption.
+Qed.
+
+(* ------------------------------------------------------------------ the whole file *)
+Definition plan_item := (asdu * list asdu * asdu)%type.      (* call section, negative section acks, positive section ack *)
+Definition section_events (pl : plan_item) (sec : list Z) : list event :=
+  [ERx 0 (fst (fst pl))] ++ runs sec ++ concat (map (round_events sec) (snd (fst pl))) ++ [ERx 0 (snd pl)].
+Fixpoint file_events (pls : list plan_item) (secs : list (list Z)) : list event :=
+  match pls, secs with
+  | pl :: pls', sec :: secs' => section_events pl sec ++ file_events pls' secs'
+  | _, _ => []
+  end.
+Fixpoint plan_ok (c : fcfg) (e : fenv) (k : Z) (pls : list plan_item) : Prop :=
+  match pls with
+  | [] => True
+  | pl :: t => is_call_section c e (fst (fst pl)) k /\ Forall (fun a => is_ack c e a 4) (snd (fst pl)) /\ is_ack c e (snd pl) 3 /\ plan_ok c e (k + 1) t
+  end.
+
+Inductive file_obs (c : fcfg) : Z -> list (list Z) -> list plan_item -> list obs -> Prop :=
+| fo_nil k : file_obs c k [] [] []
+| fo_cons k sec secs pl pls o os : sec_obs c k sec (S (length (snd (fst pl)))) o -> file_obs c (k + 1) secs pls os ->
+                                   file_obs c k (sec :: secs) (pl :: pls) (o ++ os).
+
+Lemma section_upto_ack c e b k sec fc now (pl : plan_item) : good_cfg c -> bound b e -> section e k sec -> sec <> [] ->
+  is_call_section c e (fst (fst pl)) k -> Forall (fun a => is_ack c e a 4) (snd (fst pl)) ->
+  exists os, run c e ([ERx 0 (fst (fst pl))] ++ runs sec ++ concat (map (round_events sec) (snd (fst pl))))
+                 (mkS b WaitSectionCall k 0 (len sec) 0 fc now) now [] =
+             ROk (mkS b WaitSectionAck k (len sec) (len sec) (chk sec) fc now) now os /\
+             sec_obs c k sec (S (length (snd (fst pl)))) os.
+Proof.
+  intros Hc Hb Hsec Hne Hcall Hn.
+  destruct (one_round c e b k sec fc now Hc Hb Hsec) as (os1 & R1 & O1).
+  destruct (repeated_rounds c e b k sec fc now Hc Hb Hsec _ Hn) as (os2 & R2 & O2).
+  cbn [app run]. rewrite (step_call_section c e b k sec fc now _ Hc Hb Hsec Hne Hcall). cbn [app].
+  rewrite run_app, run_acc, R1, run_acc, R2.
+  eexists. split; [reflexivity|].
+  change (S (length (snd (fst pl)))) with (0 + (1 + length (snd (fst pl))))%nat.
+  apply (sec_obs_app c k sec 0 _ [_] (os1 ++ os2)).
+  - unfold sec_obs. cbn. repeat split; reflexivity.
+  - apply sec_obs_app; assumption.
+Qed.
+
+Lemma nth_mid {A} (pre : list A) x rest d : nth (length pre) (pre ++ x :: rest) d = x.
+Proof. rewrite app_nth2 by lia. rewrite Nat.sub_diag. reflexivity. Qed.
+
+Lemma u8_chk fc sec : u8 (fc + chk sec) = (fc + sum sec) mod 256.
+Proof. unfold u8, chk. apply Zplus_mod_idemp_r. Qed.
+
+Lemma sections_run c e b now : good_cfg c -> good_env e -> bound b e ->
+  forall rest pls pre fc, e_secs e = pre ++ rest -> rest <> [] -> length pls = length rest ->
+  plan_ok c e (Z.of_nat (length pre) + 1) pls ->
+  exists os oa, run c e (file_events pls rest) (mkS b WaitSectionCall (Z.of_nat (length pre) + 1) 0 (len (hd [] rest)) 0 fc now) now [] =
+    ROk (mkS b WaitFileAck (Z.of_nat (length (e_secs e)) + 1) 0 (len (List.last rest [])) 0 ((fc + sum (concat rest)) mod 256) now) now
+        (os ++ [CSectionSize (Z.of_nat (length (e_secs e))) 0;
+                OSend 0 oa (s_ca b) (s_ioa b) (s_nof b) (TLastSection (Z.of_nat (length (e_secs e)) + 1) ((fc + sum (concat rest)) mod 256))]) /\
+    file_obs c (Z.of_nat (length pre) + 1) rest pls os.
+Proof.
+  intros Hc He Hb. destruct He as (E1 & E2 & E3).
+  induction rest as [|sec rest IH]; intros pls pre fc Hsecs Hne Hlen Hplan; [congruence|].
+  destruct pls as [|pl pls]; [discriminate|]. cbn [plan_ok] in Hplan. destruct Hplan as (P1 & P2 & P3 & P4).
+  set (k := Z.of_nat (length pre) + 1).
+  assert (Hsec : section e k sec).
+  { split.
+    - rewrite Hsecs, app_length. cbn [length]. unfold k. lia.
+    - unfold k. replace (Z.to_nat (Z.of_nat (length pre) + 1 - 1)) with (length pre) by lia. rewrite Hsecs. apply nth_mid. }
+  assert (Hsne : sec <> []).
+  { rewrite Hsecs in E2. apply Forall_app in E2 as [_ E2]. inversion E2; assumption. }
+  assert (Hk : 0 <= k < 255).
+  { rewrite Hsecs, app_length in E3. cbn [length] in E3. unfold k. lia. }
+  destruct (section_upto_ack c e b k sec fc now pl Hc Hb Hsec Hsne P1 P2) as (os1 & R1 & O1).
+  cbn [file_events hd]. unfold section_events.
+  rewrite !app_assoc. rewrite <- (app_assoc _ [ERx 0 (snd pl)]). rewrite run_app.
+  rewrite <- (app_assoc [ERx 0 (fst (fst pl))] (runs sec)). rewrite R1.
+  cbn [app run].
+  destruct rest as [|sec' rest'].
+  - (* the last section *)
+    assert (Hkn : k = Z.of_nat (length (e_secs e))).
+    { rewrite Hsecs, app_length. cbn [length]. unfold k. lia. }
+    rewrite (step_ack_section_last c e b k (len sec) (chk sec) fc now _ Hc Hb P3 Hkn Hk).
+    destruct pls; [|discriminate]. cbn [file_events run List.last concat app]. rewrite app_nil_r.
+    rewrite u8_chk. rewrite <- Hkn.
+    exists (os1 ++ []), (get_oa (f_alp c) (snd pl)). split.
+    + rewrite app_nil_r. reflexivity.
+    + apply fo_cons; [exact O1|constructor].
+  - (* more sections follow *)
+    assert (Hnxt : section e (k + 1) sec').
+    { split.
+      - rewrite Hsecs, app_length. cbn [length]. unfold k. lia.
+      - unfold k. replace (Z.to_nat (Z.of_nat (length pre) + 1 + 1 - 1)) with (length (pre ++ [sec])) by (rewrite app_length; cbn; lia).
+        rewrite Hsecs. replace (pre ++ sec :: sec' :: rest') with ((pre ++ [sec]) ++ sec' :: rest') by (rewrite <- app_assoc; reflexivity).
+        apply nth_mid. }
+    assert (Hnne : sec' <> []).
+    { rewrite Hsecs in E2. apply Forall_app in E2 as [_ E2]. inversion E2 as [|? ? _ E2']. inversion E2'; assumption. }
+    rewrite (step_ack_section_next c e b k (len sec) (chk sec) fc now _ sec' Hc Hb P3 Hnxt Hnne Hk).
+    cbn [app]. rewrite run_acc.
+    destruct (IH pls (pre ++ [sec]) (u8 (fc + chk sec))) as (os2 & oa & R2 & O2).
+    { rewrite <- app_assoc. exact Hsecs. } { discriminate. } { cbn in Hlen. cbn. lia. }
+    { rewrite app_length. cbn [length]. replace (Z.of_nat (length pre + 1) + 1) with (k + 1) by (unfold k; lia). exact P4. }
+    rewrite app_length in R2, O2. cbn [length hd] in R2, O2.
+    replace (Z.of_nat (length pre + 1) + 1) with (k + 1) in R2, O2 by (unfold k; lia).
+    rewrite R2.
+    replace ((u8 (fc + chk sec) + sum (concat (sec' :: rest'))) mod 256) with ((fc + sum (concat (sec :: sec' :: rest'))) mod 256).
+    2:{ rewrite u8_chk. cbn [concat]. rewrite !sum_app. rewrite Zplus_mod_idemp_l. f_equal. lia. }
+    cbn [List.last].
+    exists (os1 ++ [CSectionSize k (len sec'); OSend 0 (get_oa (f_alp c) (snd pl)) (s_ca b) (s_ioa b) (s_nof b) (TSectionReady (k + 1) (len sec'))] ++ os2), oa.
+    split.
+    + rewrite <- !app_assoc. reflexivity.
+    + rewrite app_assoc. apply fo_cons; [|exact O2].
+      rewrite <- (Nat.add_0_r (S (length (snd (fst pl))))).
+      apply sec_obs_app; [exact O1|]. unfold sec_obs. cbn. repeat split; reflexivity.
+Qed.
+
+Lemma file_obs_quiet c k secs pls os : file_obs c k secs pls os -> completes os = [] /\ last_sections os = [] /\
+  forallb (seg_len_ok (max_seg c)) os = true.
+Proof.
+  induction 1 as [|k sec secs pl pls o os (A1 & A2 & A3 & A4 & A5 & A6) _ (I1 & I2 & I3)]; [repeat split; reflexivity|].
+  rewrite completes_app, last_sections_app, forallb_app, A5, A6, A3, I1, I2, I3. repeat split; reflexivity.
+Qed.
+
+(* THE download theorem: for ANY file (non-empty sections) and a master following select / call file /
+   (call section, [negative ack -> repetition]*, positive ack)* / ack file *)
+Theorem download_exact c e s0 now sel_m callf pls ackf :
+  good_cfg c -> good_env e -> e_secs e <> [] -> st s0 = Idle ->
+  is_select c e sel_m -> is_call_file c e callf -> length pls = length (e_secs e) -> plan_ok c e 1 pls -> is_ack c e ackf 1 ->
+  exists s' os oa0 oa1 oa2,
+    run c e ([ERx 0 sel_m; ERx 0 callf] ++ file_events pls (e_secs e) ++ [ERx 0 ackf]) s0 now [] =
+    ROk s' now ([CGetFile (e_ca e) (e_ioa e) (e_nof e) (-1); CFileSize (file_size e);
+                 OSend 0 oa0 (e_ca e) (e_ioa e) (e_nof e) (TFileReady (file_size e) true);
+                 CSectionSize 0 (len (hd [] (e_secs e)));
+                 OSend 0 oa1 (e_ca e) (e_ioa e) (e_nof e) (TSectionReady 1 (len (hd [] (e_secs e))))]
+                ++ os ++
+                [CSectionSize (Z.of_nat (length (e_secs e))) 0;
+                 OSend 0 oa2 (e_ca e) (e_ioa e) (e_nof e) (TLastSection (Z.of_nat (length (e_secs e)) + 1) (chk (concat (e_secs e))));
+                 CComplete true]) /\
+    st s' = Idle /\ sel s' = false /\ file_obs c 1 (e_secs e) pls os.
+Proof.
+  intros Hc He Hne Hs0 Hsel Hcall Hlen Hplan Hack.
+  destruct (e_secs e) as [|sec1 rest] eqn:Hsecs; [congruence|].
+  assert (Hsec1 : section e 1 sec1).
+  { split; [rewrite Hsecs; cbn [length]; lia|]. rewrite Hsecs. reflexivity. }
+  set (b := selected s0 e).
+  assert (Hb : bound b e) by (repeat split; reflexivity).
+  cbn [app run].
+  rewrite (step_select c e s0 now sel_m Hc He Hs0 Hsel). cbn [app].
+  rewrite (step_call_file c e s0 now callf sec1 Hc He Hcall Hsec1). cbn [app].
+  rewrite run_app, run_acc.
+  destruct (sections_run c e b now Hc He Hb (sec1 :: rest) pls [] 0) as (os & oa & R & O).
+  { rewrite Hsecs. reflexivity. } { discriminate. } { exact Hlen. } { exact Hplan. }
+  change (Z.of_nat (length (@nil (list Z))) + 1) with 1 in R, O. change (hd [] (sec1 :: rest)) with sec1 in R.
+  rewrite Hsecs in R. subst b. rewrite R.
+  cbn [run]. rewrite Z.add_0_l.
+  rewrite (step_ack_file c e (selected s0 e) _ _ _ _ _ now ackf Hc Hb Hack). cbn [app].
+  fold (chk (concat (sec1 :: rest))).
+  eexists _, os, _, _, oa. split.
+  { f_equal. cbn [hd selected s_ca s_ioa s_nof]. rewrite <- !app_assoc. cbn [app]. reflexivity. }
+  split; [reflexivity|split; [reflexivity|exact O]].
+Qed.
+
+(* ------------------------------------------------------------------ upload direction: offsets *)
+Definition is_segment_msg (c : fcfg) (a : asdu) (n : Z) (data : list Z) : Prop :=
+  tid a = 125 /\ exists ioa n0 n1, dec_segment (f_alp c) (payload a) = Some (ioa, [n0; n1; n; len data] ++ data).
+
+Fixpoint offsets_obs (o : Z) (msgs : list (asdu * Z * list Z)) : list obs :=
+  match msgs with
+  | [] => []
+  | (_, n, d) :: t => CSegment n o d :: offsets_obs (o + len d) t
+  end.
+Definition total_len (msgs : list (asdu * Z * list Z)) : Z := sum (map (fun m => len (snd m)) msgs).
+
+(* the receiver callback sees every segment of a section with offset 0, los1, los1+los2, ... and exactly its octets *)
+Theorem upload_offsets c e now : 0 <= f_timeout c ->
+  forall msgs s, Forall (fun m => is_segment_msg c (fst (fst m)) (snd (fst m)) (snd m)) msgs ->
+  st s = Receive -> rcv s = true -> last s = now ->
+  exists s', run c e (map (fun m => ERx 0 (fst (fst m))) msgs) s now [] = ROk s' now (offsets_obs (off s) msgs) /\
+             st s' = Receive /\ rcv s' = true /\ last s' = now /\ off s' = off s + total_len msgs /\ nos s' = nos s /\ size s' = size s.
+Proof.
+  intros Ht. induction msgs as [|[[a n] d] msgs IH]; intros s HF Hs Hr Hl.
+  - exists s. cbn. unfold total_len. cbn. repeat split; try assumption; lia.
+  - inversion_clear HF as [|? ? Hm HF']. destruct Hm as (Htid & ioa & n0 & n1 & Hdec). cbn [fst snd] in *.
+    cbn [map run fst]. unfold handle_asdu. rewrite Htid. cbn [Z.leb Z.compare Pos.compare Pos.compare_cont andb Z.eqb Pos.eqb].
+    rewrite Hs. cbn [fstate_eqb negb andb]. unfold timed_out. rewrite (no_timeout c now (last s) Ht Hl).
+    unfold h_segment. rewrite Hs. cbn [fstate_eqb]. rewrite Hdec. cbn [app fld nth skipn]. rewrite Hr. cbn [app].
+    rewrite run_acc.
+    destruct (IH (set_last (set_sec s (nos s) (off s + len d) (size s)) now)) as (s' & R & A1 & A2 & A3 & A4 & A5 & A6);
+      try assumption; try reflexivity.
+    cbn [set_last set_sec off nos size] in R, A4, A5, A6. rewrite R.
+    exists s'. split; [reflexivity|]. repeat split; try assumption.
+    unfold total_len in *. cbn [map sum fold_right snd]. fold (sum (map (fun m : asdu * Z * list Z => len (snd m)) msgs)). lia.
+Qed.
+
+(* ------------------------------------------------------------------ refutations *)
+Definition cfg0 (fx : bool) : fcfg := {| f_alp := {| cot_sz := 2; ca_sz := 2; ioa_sz := 3 |}; f_max := 249; f_timeout := 3000; f_fixd := fx |}.
+Definition env0 : fenv := {| e_present := true; e_ca := 1; e_ioa := 30000; e_nof := 1; e_secs := [[10; 20; 30]; [1; 2]]; e_recv := 1 |}.
+Definition fmsg (t cotb : Z) (body : list Z) : asdu :=
+  {| tid := t; vsq := 1; cot := cotb mod 64; pn := (cotb / 64) mod 2 =? 1; tst := false; addr := [0; 1; 0]; payload := [48; 117; 0] ++ body |}.
+Definition m_select := fmsg 122 13 [1; 0; 0; 1].
+Definition m_callfile := fmsg 122 13 [1; 0; 0; 2].
+Definition m_callsec (k : Z) := fmsg 122 13 [1; 0; k; 6].
+Definition m_callsec_neg (k : Z) := fmsg 122 (13 + 64) [1; 0; k; 6].
+Definition m_ack (k afq : Z) := fmsg 124 13 [1; 0; k; afq].
+
+Definition obs_of (r : rres) : list obs := match r with ROk _ _ o => o | RFault => [] end.
+
+(* open finding: the master may skip a section (negative call-section) and the provider is still told "success" *)
+Definition skip_script : list event :=
+  [ERx 0 m_select; ERx 0 m_callfile; ERx 0 (m_callsec_neg 1); ERx 0 (m_callsec 2); ERun 0; ERun 0; ERx 0 (m_ack 2 3); ERx 0 (m_ack 3 1)].
+Lemma skip_section_success :
+  let o := obs_of (run (cfg0 true) env0 skip_script fs0 1000 []) in
+  completes o = [true] /\ segments 1 o = [] /\ segments 2 o = [1; 2].
+Proof. vm_compute. repeat split; reflexivity. Qed.
+
+(* pinned snapshot: a repeated section is added to the file checksum twice *)
+Definition repeat_script : list event :=
+  [ERx 0 m_select; ERx 0 m_callfile; ERx 0 (m_callsec 1); ERun 0; ERun 0; ERx 0 (m_ack 1 4); ERun 0; ERun 0; ERx 0 (m_ack 1 3);
+   ERx 0 (m_callsec 2); ERun 0; ERun 0; ERx 0 (m_ack 2 3); ERx 0 (m_ack 3 1)].
+Lemma snapshot_repeat_falsifies_checksum :
+  last_sections (obs_of (run (cfg0 false) env0 repeat_script fs0 1000 [])) = [(3, 123)] /\ chk (concat (e_secs env0)) = 63 /\
+  last_sections (obs_of (run (cfg0 true) env0 repeat_script fs0 1000 [])) = [(3, 63)].
+Proof. vm_compute. repeat split; reflexivity. Qed.
+
+(* pinned snapshot: a truncated file ASDU is dereferenced without a NULL check (every one of the six decoders) *)
+Lemma snapshot_truncated_faults :
+  run (cfg0 false) env0 [ERx 0 (fmsg 122 13 [1; 0])] fs0 1000 [] = RFault /\
+  run (cfg0 false) env0 [ERx 0 (fmsg 123 13 [1; 0])] fs0 1000 [] = RFault /\
+  run (cfg0 false) env0 [ERx 0 (fmsg 120 13 [1; 0])] fs0 1000 [] = RFault /\
+  run (cfg0 false) env0 [ERx 0 m_select; ERx 0 (fmsg 124 13 [1; 0])] fs0 1000 [] = RFault /\
+  run (cfg0 false) env0 [ERx 0 (fmsg 120 13 [1; 0; 5; 0; 0; 0]); ERx 0 (fmsg 121 13 [1; 0])] fs0 1000 [] = RFault /\
+  run (cfg0 false) env0 [ERx 0 (fmsg 120 13 [1; 0; 5; 0; 0; 0]); ERx 0 (fmsg 121 13 [1; 0; 1; 5; 0; 0; 0]); ERx 0 (fmsg 125 13 [1; 0; 1; 9; 7])] fs0 1000 [] = RFault /\
+  (exists s o, run (cfg0 true) env0 [ERx 0 (fmsg 122 13 [1; 0])] fs0 1000 [] = ROk s 1000 o).
+Proof. vm_compute. repeat split; try reflexivity. do 2 eexists. reflexivity. Qed.
+
+(* pinned snapshot: the section checksum survives an aborted transfer and falsifies the next one *)
+Definition stale_script : list event :=
+  [ERx 0 m_select; ERx 0 m_callfile; ERx 0 (m_callsec 1); ERun 0; EAdv 3001; ERx 0 m_select; ERx 0 m_callfile; ERx 0 (m_callsec 1); ERun 0; ERun 0].
+Lemma snapshot_stale_section_checksum :
+  last_segments (obs_of (run (cfg0 false) env0 stale_script fs0 1000 [])) = [(1, 120)] /\
+  last_segments (obs_of (run (cfg0 true) env0 stale_script fs0 1000 [])) = [(1, 60)] /\ chk [10; 20; 30] = 60.
+Proof. vm_compute. repeat split; reflexivity. Qed.
+
+(* the hypotheses of download_exact are inhabited *)
+Lemma example_messages_ok :
+  good_cfg (cfg0 true) /\ good_env env0 /\ is_select (cfg0 true) env0 m_select /\ is_call_file (cfg0 true) env0 m_callfile /\
+  plan_ok (cfg0 true) env0 1 [(m_callsec 1, [m_ack 1 4], m_ack 1 3); (m_callsec 2, [], m_ack 2 3)] /\ is_ack (cfg0 true) env0 (m_ack 3 1) 1.
+Proof.
+  split; [repeat split; try reflexivity; discriminate|].
+  split; [repeat split; try reflexivity; repeat constructor; discriminate|].
+  split; [exists 1, 0, 0; repeat split; reflexivity|].
+  split; [exists 1, 0, 0; repeat split; reflexivity|].
+  split.
+  - cbn [plan_ok fst snd]. repeat split; try (exists 1, 0; repeat split; reflexivity); try (exists 1, 0, 1; repeat split; reflexivity);
+      try (exists 1, 0, 2; repeat split; reflexivity).
+    + constructor; [|constructor]. exists 1, 0, 1; repeat split; reflexivity.
+    + constructor.
+  - exists 1, 0, 3; repeat split; reflexivity.
 Qed.
